@@ -3,8 +3,12 @@ import os
 import re
 import subprocess
 
+import collections
+import json
+
 import build
 import driver
+import mtindep
 import verdict
 
 PROP = "C16"
@@ -15,7 +19,10 @@ RULE = ("exhaustive fixed grids of member tuples: three tuple_operators structs 
         "lexicographic comparison, trichotomy; all triples: transitivity; per-position and swap sensitivity of the "
         "hash (collision rate <= 1 %, measured 0); unordered_set / unordered_map: a seeded half of the grid is "
         "inserted and every key is found iff inserted; evaluations = pairs + triples + lookups; distinct_nontrivial "
-        "= pairs compared (grid values are distinct by construction except the deliberately equal ones)")
+        "= pairs compared (grid values are distinct by construction except the deliberately equal ones); long "
+        "string components (15 ... 70000 characters differing in one character); a concurrent phase "
+        "(lib/mtindep.py: 2-16 threads hashing thread-private values under ThreadSanitizer, compared with the "
+        "serial results)")
 
 
 def run(tier, replay=None):
@@ -23,6 +30,13 @@ def run(tier, replay=None):
     scale = 2 if tier == "quick" else 3
     tags = ["gasan"] if tier == "quick" else ["gasan", "casan"]
     total = {}
+    conc = collections.Counter()
+    if replay:
+        with open(replay) as fh:
+            rcase = verdict.unhex_json(json.load(fh))["case"]
+        if isinstance(rcase, dict) and rcase.get("phase") == "concurrent-independent-use":
+            mtindep.replay(run_, rcase, conc)
+            return run_.finish(10, 1, RULE)
     for tag in tags:
         exe = build.build_exe(tag, ["hashgrid.cpp"])
         env = dict(os.environ)
@@ -48,6 +62,10 @@ def run(tier, replay=None):
                     k, v = kv.rsplit("=", 1)
                     total[k] = int(v)
     pairs = sum(v for k, v in total.items() if k.startswith("pairs:"))
+    if not replay:
+        # hashing, comparing and hash containers from 2-16 threads on thread-private values
+        mtindep.phase(run_, "hash", tier, conc)
+        total.update(conc)
     run_.coverage["counters"] = total
     run_.coverage["builds"] = tags
     if not replay and total.get("equal-but-distinct-pairs", 0) == 0:
